@@ -344,17 +344,52 @@ def drop_notes_master_rel(data: bytes) -> bytes:
 _SLIDE_MEMBER = re.compile(r"^ppt/slides/slide\d+\.xml$")
 
 
+BOOL_ATTRS = {"hMerge", "vMerge", "firstRow", "firstCol", "lastRow", "lastCol", "bandRow", "bandCol", "b", "i", "noChangeAspect", "noGrp",
+              "noSelect", "noRot", "noMove", "noResize", "userDrawn", "showMasterSp", "flipH", "flipV", "rotWithShape", "anchorCtr", "rtlCol",
+              "fromWordArt", "upright", "compatLnSpc", "forceAA", "kumimoji", "noProof", "dirty", "err", "smtClean", "hasCustomPrompt", "txBox",
+              "rtl", "eaLnBrk", "latinLnBrk", "hangingPunct", "showMasterPhAnim"}
+CHART_BOOL_ELEMENTS = {"autoTitleDeleted", "varyColors", "smooth", "invertIfNegative", "delete", "showLegendKey", "showVal", "showCatName",
+                       "showSerName", "showPercent", "showBubbleSize", "overlay", "plotVisOnly", "date1904", "roundedCorners", "auto",
+                       "noMultiLvlLbl", "bubble3D", "showNegBubbles", "showLeaderLines", "marker", "showDLblsOverMax", "autoUpdate"}
+_CHART_MEMBER = re.compile(r"^ppt/charts/chart\d+\.xml$")
+
+
 def rewrite_slides(data: bytes, how: str) -> bytes:
-    """What another producer might legally write for the same slides:
-    strip_tblPr  - a:tbl without its optional a:tblPr child
-    pct_literals - (reserved)
+    """What another producer might legally write for the same slides (and charts):
+    strip_tblPr       - a:tbl without its optional a:tblPr child
+    strip_cell_txBody - empty table cells without their optional a:txBody child
+    bool_words        - xsd:boolean values spelled true / false instead of 1 / 0 (attributes of slide parts, c:* val of chart parts)
     """
     A = "{http://schemas.openxmlformats.org/drawingml/2006/main}"
+    C_ = "{http://schemas.openxmlformats.org/drawingml/2006/chart}"
     out = []
     for n, b in read_members(data):
+        if how == "bool_words" and _CHART_MEMBER.match(n):
+            root = refpkg.parse(b)
+            changed = False
+            for el in root.iter():
+                if isinstance(el.tag, str) and el.tag.startswith(C_) and etree.QName(el).localname in CHART_BOOL_ELEMENTS and el.get("val") in ("0", "1") and len(el) == 0:
+                    el.set("val", "true" if el.get("val") == "1" else "false")
+                    changed = True
+            if changed:
+                b = etree.tostring(root, xml_declaration=True, encoding="UTF-8", standalone=True)
         if _SLIDE_MEMBER.match(n):
             root = refpkg.parse(b)
             changed = False
+            if how == "bool_words":
+                for el in root.iter():
+                    if not isinstance(el.tag, str):
+                        continue
+                    for k, v in list(el.attrib.items()):
+                        if k in BOOL_ATTRS and v in ("0", "1"):
+                            el.set(k, "true" if v == "1" else "false")
+                            changed = True
+            if how == "strip_cell_txBody":
+                for tc in root.iter(A + "tc"):
+                    tb = tc.find(A + "txBody")
+                    if tb is not None and "".join(tb.itertext()) == "" and not any(True for _ in tb.iter(A + "br")) and len(tb.findall(A + "p")) <= 1:
+                        tc.remove(tb)
+                        changed = True
             if how == "strip_tblPr":
                 for tbl in root.iter(A + "tbl"):
                     pr = tbl.find(A + "tblPr")
